@@ -1,6 +1,8 @@
 import Dashu.Proofs.Int.Cmp
 import Dashu.Proofs.Int.Pow
 import Dashu.Proofs.Int.Div
+import Dashu.Proofs.Int.BitsPrim
+import Dashu.Model.Int.Hist
 /-
   C05, the "whichever constructor or operation produced the values" quantifier.
 
@@ -18,97 +20,6 @@ import Dashu.Proofs.Int.Div
   produced follow their values.
 -/
 namespace Dashu.Model
-
-/-- `Shr<usize> for IBig` at the representation level:
-    `Positive => IBig(mag >> n)`, `Negative => -IBig(mag >> n) - IBig::from(b)` -/
-def ibigShrRepr (W : Nat) (a : SRepr) (n : Nat) (byRef : Bool) : SRepr :=
-  if a.neg then
-    ibigSub W (SRepr.negate ⟨false, a.mag.shr W n byRef⟩)
-      ⟨false, .small (if a.mag.areLowBitsNonzero W true n then 1 else 0)⟩
-  else ⟨false, a.mag.shr W n byRef⟩
-
-/-- one instruction of a history; operands are register indices -/
-inductive HOp where
-  | const (z : Int)
-  | clone (i : Nat)
-  | neg (i : Nat) | abs (i : Nat) | not (i : Nat) | sqr (i : Nat)
-  | pow (i : Nat) (e : Nat)
-  | shl (i : Nat) (n : Nat) | shr (i : Nat) (n : Nat) (byRef : Bool)
-  | add (i j : Nat) (form : Nat) | sub (i j : Nat) (form : Nat) | mul (i j : Nat)
-  | div (i j : Nat) | rem (i j : Nat)
-  | and (i j : Nat) | or (i j : Nat) | xor (i j : Nat)
-  | ones (n : Nat)
-
-inductive HRes (α : Type) where
-  | ok (r : α) | panic (k : PanicKind) | bad
-  deriving DecidableEq
-
-def ofExcept {α} : Except PanicKind α → HRes α
-  | .ok r => .ok r
-  | .error k => .panic k
-
-/-- execute one instruction on the representations -/
-def hstep (W : Nat) (env : List SRepr) : HOp → HRes SRepr
-  | .const z => .ok (SRepr.ofInt W z)
-  | .ones n => .ok ⟨false, reprOnes W true n⟩
-  | .clone i => match env[i]? with | some a => .ok a | none => .bad
-  | .neg i => match env[i]? with | some a => .ok a.negate | none => .bad
-  | .abs i => match env[i]? with | some a => .ok ⟨false, a.mag⟩ | none => .bad
-  | .not i => match env[i]? with | some a => .ok (ibigNot W a) | none => .bad
-  | .sqr i => match env[i]? with | some a => .ok ⟨false, a.mag.sqr W⟩ | none => .bad
-  | .pow i e => match env[i]? with | some a => ofExcept (ibigPowChecked W a e) | none => .bad
-  | .shl i n => match env[i]? with | some a => .ok (ibigShl W a n) | none => .bad
-  | .shr i n r => match env[i]? with | some a => .ok (ibigShrRepr W a n r) | none => .bad
-  | .add i j f => match env[i]?, env[j]? with | some a, some b => .ok (ibigAdd W a b f) | _, _ => .bad
-  | .sub i j f => match env[i]?, env[j]? with | some a, some b => .ok (ibigSub W a b f) | _, _ => .bad
-  | .mul i j => match env[i]?, env[j]? with | some a, some b => .ok (ibigMul W a b) | _, _ => .bad
-  | .div i j => match env[i]?, env[j]? with | some a, some b => ofExcept (Div.ibigDiv W a b) | _, _ => .bad
-  | .rem i j => match env[i]?, env[j]? with | some a, some b => ofExcept (Div.ibigRem W a b) | _, _ => .bad
-  | .and i j => match env[i]?, env[j]? with | some a, some b => .ok (ibigAnd W a b) | _, _ => .bad
-  | .or i j => match env[i]?, env[j]? with | some a, some b => .ok (ibigOr W a b) | _, _ => .bad
-  | .xor i j => match env[i]?, env[j]? with | some a, some b => .ok (ibigXor W a b) | _, _ => .bad
-
-/-- the same instruction on mathematical integers (`none` = the documented panic) -/
-def hspec (env : List Int) : HOp → HRes Int
-  | .const z => .ok z
-  | .ones n => .ok ((2 : Int) ^ n - 1)
-  | .clone i => match env[i]? with | some a => .ok a | none => .bad
-  | .neg i => match env[i]? with | some a => .ok (-a) | none => .bad
-  | .abs i => match env[i]? with | some a => .ok (a.natAbs : Int) | none => .bad
-  | .not i => match env[i]? with | some a => .ok (compl a) | none => .bad
-  | .sqr i => match env[i]? with | some a => .ok (a * a) | none => .bad
-  | .pow i e => match env[i]? with
-    | some a => if powShiftOverflows a.natAbs e then .panic .allocTooMuch else .ok (a ^ e)
-    | none => .bad
-  | .shl i n => match env[i]? with | some a => .ok (a * (2 : Int) ^ n) | none => .bad
-  | .shr i n _ => match env[i]? with | some a => .ok (a / (2 : Int) ^ n) | none => .bad
-  | .add i j _ => match env[i]?, env[j]? with | some a, some b => .ok (a + b) | _, _ => .bad
-  | .sub i j _ => match env[i]?, env[j]? with | some a, some b => .ok (a - b) | _, _ => .bad
-  | .mul i j => match env[i]?, env[j]? with | some a, some b => .ok (a * b) | _, _ => .bad
-  | .div i j => match env[i]?, env[j]? with
-    | some a, some b => if b = 0 then .panic .divideByZero else .ok (Int.tdiv a b) | _, _ => .bad
-  | .rem i j => match env[i]?, env[j]? with
-    | some a, some b => if b = 0 then .panic .divideByZero else .ok (Int.tmod a b) | _, _ => .bad
-  | .and i j => match env[i]?, env[j]? with | some a, some b => .ok (specAnd a b) | _, _ => .bad
-  | .or i j => match env[i]?, env[j]? with | some a, some b => .ok (specOr a b) | _, _ => .bad
-  | .xor i j => match env[i]?, env[j]? with | some a, some b => .ok (specXor a b) | _, _ => .bad
-
-/-- run a history: each result is appended to the register file; stop at the first panic / bad index.
-    Returns the register file and whether the program ran to the end. -/
-def hrun (W : Nat) : List HOp → List SRepr → List SRepr × Bool
-  | [], env => (env, true)
-  | op :: ops, env =>
-    match hstep W env op with
-    | .ok r => hrun W ops (env ++ [r])
-    | _ => (env, false)
-
-def hrunSpec : List HOp → List Int → List Int × Bool
-  | [], env => (env, true)
-  | op :: ops, env =>
-    match hspec env op with
-    | .ok r => hrunSpec ops (env ++ [r])
-    | _ => (env, false)
-
 
 -- ================================================================== one step
 
@@ -196,6 +107,170 @@ theorem ibigRem_spec' (W : Nat) (hW : 4 ≤ W) (a b : SRepr) (ha : SCanon W a) (
     · rw [withSign_value, hr]
       exact tmod_signs a.neg b.neg _ _
 
+theorem isZero_iff_value {W : Nat} {r : TRepr} (hc : r.Canon W) : r.isZero = true ↔ r.value W = 0 := by
+  constructor
+  · intro h; rw [(TRepr.isZero_iff r).mp h]; rfl
+  · intro h
+    by_contra hz
+    exact TRepr.value_ne_zero_of_not_isZero hc hz h
+
+/-- Euclidean quotient from the truncated quotient/remainder of the magnitudes -/
+theorem ediv_signs (an bn : Bool) (x y : Nat) (hy : y ≠ 0) :
+    (if (an != bn) = true then -(((if !an || decide (x % y = 0) then x / y else x / y + 1 : Nat)) : Int)
+      else ((if !an || decide (x % y = 0) then x / y else x / y + 1 : Nat) : Int))
+      = (if an then -(x : Int) else x) / (if bn then -(y : Int) else y) := by
+  have hdm := Nat.div_add_mod x y
+  have hlt := Nat.mod_lt x (Nat.pos_of_ne_zero hy)
+  generalize x / y = q at *
+  generalize x % y = r at *
+  have hyI : (0 : Int) < (y : Int) := by omega
+  have hx : (x : Int) = (y : Int) * q + r := by exact_mod_cast hdm.symm
+  symm
+  cases an <;> cases bn <;> simp only [Bool.not_false, Bool.not_true, Bool.true_or, Bool.false_or, if_true,
+    Bool.false_eq_true, if_false, bne_self_eq_false, Bool.bne_true, Bool.bne_false]
+  · -- x / y
+    exact ((Int.ediv_emod_unique (a := (x : Int)) (q := (q : Int)) (r := (r : Int)) hyI).mpr
+      ⟨by rw [hx]; ring, by omega, by omega⟩).1
+  · -- x / (-y) = -(x / y)
+    rw [Int.ediv_neg]
+    have := ((Int.ediv_emod_unique (a := (x : Int)) (q := (q : Int)) (r := (r : Int)) hyI).mpr
+      ⟨by rw [hx]; ring, by omega, by omega⟩).1
+    rw [this]
+  · -- (-x) / y
+    by_cases hr : r = 0
+    · subst hr
+      simp only [decide_true, if_true]
+      have := ((Int.ediv_emod_unique (a := -(x : Int)) (q := -(q : Int)) (r := 0) hyI).mpr
+        ⟨by rw [hx]; push_cast; ring, by omega, by omega⟩).1
+      simp [this]
+    · simp only [hr, decide_false, Bool.false_eq_true, if_false]
+      have := ((Int.ediv_emod_unique (a := -(x : Int)) (q := -((q : Int) + 1)) (r := (y : Int) - r) hyI).mpr
+        ⟨by rw [hx]; ring, by omega, by omega⟩).1
+      rw [this]; push_cast; ring
+  · -- (-x) / (-y)
+    rw [Int.ediv_neg]
+    by_cases hr : r = 0
+    · subst hr
+      simp only [decide_true, if_true]
+      have := ((Int.ediv_emod_unique (a := -(x : Int)) (q := -(q : Int)) (r := 0) hyI).mpr
+        ⟨by rw [hx]; push_cast; ring, by omega, by omega⟩).1
+      simp [this]
+    · simp only [hr, decide_false, Bool.false_eq_true, if_false]
+      have := ((Int.ediv_emod_unique (a := -(x : Int)) (q := -((q : Int) + 1)) (r := (y : Int) - r) hyI).mpr
+        ⟨by rw [hx]; ring, by omega, by omega⟩).1
+      rw [this]; push_cast; ring
+
+/-- `IBig::div_euclid`: canonical result, Euclidean quotient (`Int./`), `DivideByZero` for 0 -/
+theorem ibigDivEuclid_spec' (W : Nat) (hW : 4 ≤ W) (a b : SRepr) (ha : SCanon W a) (hb : SCanon W b) :
+    (b.value W = 0 → Div.ibigDivEuclid W a b = .error .divideByZero) ∧
+    (b.value W ≠ 0 → ∃ q, Div.ibigDivEuclid W a b = .ok q ∧ SCanon W q ∧ q.value W = a.value W / b.value W) := by
+  have hW1 : 1 ≤ W := by omega
+  have ⟨d0, d1⟩ := Div.divRemRepr_spec W hW1 hW a.mag b.mag ha.1 hb.1
+  constructor
+  · intro h0
+    simp only [Div.ibigDivEuclid, d0 ((srepr_value_zero_iff' W b).mp h0), bind, Except.bind]
+  · intro hne
+    have hm : b.mag.value W ≠ 0 := fun h => hne ((srepr_value_zero_iff' W b).mpr h)
+    obtain ⟨q, r, e, hq, hr, hcq, hcr⟩ := d1 hm
+    have ⟨ev, ec⟩ := Div.addOneRepr_spec W hW1 q hcq
+    have hz : r.isZero = decide (a.mag.value W % b.mag.value W = 0) := by
+      rw [← hr]
+      by_cases h : r.value W = 0
+      · simp [h, (isZero_iff_value hcr).mpr h]
+      · have : ¬ r.isZero = true := fun h' => h ((isZero_iff_value hcr).mp h')
+        simp [h, this]
+    simp only [Div.ibigDivEuclid, e, bind, Except.bind, pure, Except.pure]
+    refine ⟨_, rfl, ?_, ?_⟩
+    · apply withSign_wf
+      split
+      · exact hcq
+      · exact ec
+    · rw [withSign_value]
+      have key := ediv_signs a.neg b.neg (a.mag.value W) (b.mag.value W) hm
+      have hval : (if (!a.neg || r.isZero) = true then q else Div.addOneRepr W q).value W
+          = (if !a.neg || decide (a.mag.value W % b.mag.value W = 0) then a.mag.value W / b.mag.value W
+              else a.mag.value W / b.mag.value W + 1) := by
+        rw [hz]
+        split <;> simp_all
+      rw [hval]
+      exact key
+
+
+theorem emod_signs (an bn : Bool) (x y : Nat) (hy : y ≠ 0) :
+    ((if !an || decide (x % y = 0) then x % y else y - x % y : Nat) : Int)
+      = (if an then -(x : Int) else x) % (if bn then -(y : Int) else y) := by
+  have hdm := Nat.div_add_mod x y
+  have hlt := Nat.mod_lt x (Nat.pos_of_ne_zero hy)
+  generalize x / y = q at *
+  generalize x % y = r at *
+  have hyI : (0 : Int) < (y : Int) := by omega
+  have hx : (x : Int) = (y : Int) * q + r := by exact_mod_cast hdm.symm
+  have hb : ∀ t : Int, t % (if bn then -(y : Int) else y) = t % (y : Int) := by
+    intro t; cases bn <;> simp [Int.emod_neg]
+  rw [hb]
+  symm
+  cases an <;> simp only [Bool.not_false, Bool.not_true, Bool.true_or, Bool.false_or, if_true,
+    Bool.false_eq_true, if_false]
+  · exact ((Int.ediv_emod_unique (a := (x : Int)) (q := (q : Int)) (r := (r : Int)) hyI).mpr
+      ⟨by rw [hx]; ring, by omega, by omega⟩).2
+  · by_cases hr : r = 0
+    · subst hr
+      simp only [decide_true, if_true]
+      exact ((Int.ediv_emod_unique (a := -(x : Int)) (q := -(q : Int)) (r := 0) hyI).mpr
+        ⟨by rw [hx]; push_cast; ring, by omega, by omega⟩).2
+    · simp only [hr, decide_false, Bool.false_eq_true, if_false]
+      have := ((Int.ediv_emod_unique (a := -(x : Int)) (q := -((q : Int) + 1)) (r := (y : Int) - r) hyI).mpr
+        ⟨by rw [hx]; ring, by omega, by omega⟩).2
+      rw [this]; omega
+
+/-- `IBig::rem_euclid` (`-> UBig`): canonical, the non-negative remainder `Int.%` -/
+theorem ibigRemEuclid_spec' (W : Nat) (hW : 4 ≤ W) (a b : SRepr) (refVal : Bool) (ha : SCanon W a) (hb : SCanon W b) :
+    (b.value W = 0 → Div.ibigRemEuclid W a b refVal = .error .divideByZero) ∧
+    (b.value W ≠ 0 → ∃ r, Div.ibigRemEuclid W a b refVal = .ok r ∧ r.Canon W ∧
+      (r.value W : Int) = a.value W % b.value W) := by
+  have hW1 : 1 ≤ W := by omega
+  have ⟨d0, d1⟩ := Div.remRepr_spec W hW1 hW a.mag b.mag ha.1 hb.1
+  obtain ⟨an, am⟩ := a
+  obtain ⟨bn, bm⟩ := b
+  constructor
+  · intro h0
+    have := d0 ((srepr_value_zero_iff' W _).mp h0)
+    cases an <;> simp [Div.ibigRemEuclid, this, bind, Except.bind]
+  · intro hne
+    have hm : bm.value W ≠ 0 := fun h => hne ((srepr_value_zero_iff' W ⟨bn, bm⟩).mpr h)
+    obtain ⟨r, e, hr, hc⟩ := d1 hm
+    have key := emod_signs an bn (am.value W) (bm.value W) hm
+    have hbv : SRepr.value W ⟨bn, bm⟩ = if bn = true then -(bm.value W : Int) else (bm.value W : Int) := rfl
+    simp only at e hr
+    cases an with
+    | false =>
+      refine ⟨r, by simp [Div.ibigRemEuclid, e], hc, ?_⟩
+      simp only [SRepr.value_mk_false, Bool.false_eq_true, if_false] at key ⊢
+      rw [hr, hbv]; simpa using key
+    | true =>
+      by_cases hz : r.value W = 0
+      · have hiz : r.isZero = true := (isZero_iff_value hc).mpr hz
+        refine ⟨r, by simp [Div.ibigRemEuclid, e, bind, Except.bind, hiz, pure, Except.pure], hc, ?_⟩
+        rw [hr] at hz
+        simp only [SRepr.value_mk_true, hz, decide_true, Bool.or_true, if_true] at key ⊢
+        rw [hr, hz, hbv]; simpa using key
+      · have hiz : ¬ r.isZero = true := fun h => hz ((isZero_iff_value hc).mp h)
+        have hlt : r.value W ≤ bm.value W := by
+          rw [hr]; exact Nat.le_of_lt (Nat.mod_lt _ (Nat.pos_of_ne_zero hm))
+        obtain ⟨r', e', hv', hc'⟩ := TRepr.sub_ok W bm r refVal hb.1 hc hlt
+        refine ⟨r', by simp [Div.ibigRemEuclid, e, bind, Except.bind, hiz, e'], hc', ?_⟩
+        rw [hr] at hz hv'
+        simp only [SRepr.value_mk_true, hz, decide_false, Bool.not_true, Bool.or_false, Bool.false_eq_true,
+          if_false] at key ⊢
+        rw [hbv]
+        have hk : ((bm.value W - am.value W % bm.value W : Nat) : Int)
+            = -(am.value W : Int) % (if bn = true then -(bm.value W : Int) else (bm.value W : Int)) := by
+          simpa using key
+        rw [← hk]
+        have : r'.value W = bm.value W - am.value W % bm.value W := by omega
+        rw [this]
+
+
 /-- agreement of one representation-level result with the value-level result -/
 def HAgree (W : Nat) : HRes SRepr → HRes Int → Prop
   | .ok r, .ok v => SCanon W r ∧ r.value W = v
@@ -209,9 +284,21 @@ theorem getElem?_map_value (W : Nat) (env : List SRepr) (i : Nat) :
 theorem mem_of_getElem? {env : List SRepr} {i : Nat} {a : SRepr} (h : env[i]? = some a) : a ∈ env :=
   List.mem_of_getElem? h
 
-theorem hstep_sound (W : Nat) (hW : 4 ≤ W) (env : List SRepr) (op : HOp)
+theorem nonneg_value {W : Nat} {a : SRepr} (ha : SCanon W a) (hn : a.neg = false) :
+    ¬ a.value W < 0 ∧ (a.value W).toNat = a.mag.value W := by
+  obtain ⟨an, am⟩ := a
+  simp only at hn; subst hn
+  simp
+
+theorem neg_value_lt {W : Nat} {a : SRepr} (ha : SCanon W a) (hn : a.neg = true) : a.value W < 0 := by
+  obtain ⟨an, am⟩ := a
+  simp only at hn; subst hn
+  have h : am.value W ≠ 0 := ha.2 rfl
+  simp only [SRepr.value_mk_true]; omega
+
+theorem hstep_sound (W : Nat) (hW : 4 ≤ W) (env : List SRepr) (op : HOp) (hok : op.Ok W)
     (henv : ∀ r ∈ env, SCanon W r) :
-    HAgree W (hstep W env op) (hspec (env.map (·.value W)) op) := by
+    HAgree W (hstep W env op) (hspec W (env.map (·.value W)) op) := by
   have hW1 : 1 ≤ W := by omega
   cases op with
   | const z =>
@@ -221,6 +308,97 @@ theorem hstep_sound (W : Nat) (hW : 4 ≤ W) (env : List SRepr) (op : HOp)
     have := Nat.two_pow_pos n
     simp only [SRepr.value_mk_false, reprOnes_value]
     rw [Int.natCast_sub (by omega)]; simp
+  | fromWords neg ws =>
+    refine ⟨withSign_wf W _ _ (fromBuffer_canon W ws hok), ?_⟩
+    rw [withSign_value, fromBuffer_value]
+  | fromUnsigned v =>
+    exact ⟨⟨fromUnsigned_canon W v hW1, by simp⟩, by simp [fromUnsigned_value W v hW1]⟩
+  | fromSigned bits v =>
+    exact fromSigned_spec W bits hW1 hok.1 v hok.2
+  | setBit i n =>
+    simp only [hstep, hspec, getElem?_map_value]
+    cases h : env[i]? with
+    | none => trivial
+    | some a =>
+      have ha := henv a (mem_of_getElem? h)
+      simp only [Option.map_some]
+      cases hn : a.neg with
+      | true => simp [neg_value_lt ha hn, HAgree]
+      | false =>
+        have ⟨h1, h2⟩ := nonneg_value ha hn
+        have ⟨e, c⟩ := TRepr.setBit_spec W hW1 a.mag n ha.1
+        simp only [Bool.false_eq_true, if_false, h1, HAgree]
+        exact ⟨scanon_pos W _ c, by simp [e, h2]⟩
+  | clearBit i n =>
+    simp only [hstep, hspec, getElem?_map_value]
+    cases h : env[i]? with
+    | none => trivial
+    | some a =>
+      have ha := henv a (mem_of_getElem? h)
+      simp only [Option.map_some]
+      cases hn : a.neg with
+      | true => simp [neg_value_lt ha hn, HAgree]
+      | false =>
+        have ⟨h1, h2⟩ := nonneg_value ha hn
+        have ⟨e, c⟩ := TRepr.clearBit_spec W hW1 a.mag n ha.1
+        simp only [Bool.false_eq_true, if_false, h1, HAgree]
+        exact ⟨scanon_pos W _ c, by simp [e, h2]⟩
+  | clearHigh i n =>
+    simp only [hstep, hspec, getElem?_map_value]
+    cases h : env[i]? with
+    | none => trivial
+    | some a =>
+      have ha := henv a (mem_of_getElem? h)
+      simp only [Option.map_some]
+      cases hn : a.neg with
+      | true => simp [neg_value_lt ha hn, HAgree]
+      | false =>
+        have ⟨h1, h2⟩ := nonneg_value ha hn
+        have ⟨e, c⟩ := TRepr.clearHighBits_spec W hW1 a.mag n ha.1
+        simp only [Bool.false_eq_true, if_false, h1, HAgree]
+        exact ⟨scanon_pos W _ c, by simp [e, h2]⟩
+  | splitLo i n =>
+    simp only [hstep, hspec, getElem?_map_value]
+    cases h : env[i]? with
+    | none => trivial
+    | some a =>
+      have ha := henv a (mem_of_getElem? h)
+      simp only [Option.map_some]
+      cases hn : a.neg with
+      | true => simp [neg_value_lt ha hn, HAgree]
+      | false =>
+        have ⟨h1, h2⟩ := nonneg_value ha hn
+        have ⟨⟨e, c⟩, _⟩ := TRepr.splitBits_spec W hW1 a.mag n ha.1
+        simp only [Bool.false_eq_true, if_false, h1, HAgree]
+        exact ⟨scanon_pos W _ c, by simp [e, h2]⟩
+  | splitHi i n =>
+    simp only [hstep, hspec, getElem?_map_value]
+    cases h : env[i]? with
+    | none => trivial
+    | some a =>
+      have ha := henv a (mem_of_getElem? h)
+      simp only [Option.map_some]
+      cases hn : a.neg with
+      | true => simp [neg_value_lt ha hn, HAgree]
+      | false =>
+        have ⟨h1, h2⟩ := nonneg_value ha hn
+        have ⟨_, ⟨e, c⟩⟩ := TRepr.splitBits_spec W hW1 a.mag n ha.1
+        simp only [Bool.false_eq_true, if_false, h1, HAgree]
+        exact ⟨scanon_pos W _ c, by simp [e, h2]⟩
+  | nextPow2 i =>
+    simp only [hstep, hspec, getElem?_map_value]
+    cases h : env[i]? with
+    | none => trivial
+    | some a =>
+      have ha := henv a (mem_of_getElem? h)
+      simp only [Option.map_some]
+      cases hn : a.neg with
+      | true => simp [neg_value_lt ha hn, HAgree]
+      | false =>
+        have ⟨h1, h2⟩ := nonneg_value ha hn
+        have ⟨e, c⟩ := TRepr.nextPow2_spec W hW1 a.mag ha.1
+        simp only [Bool.false_eq_true, if_false, h1, HAgree]
+        exact ⟨scanon_pos W _ c, by simp [e, h2, specNextPow2_eq]⟩
   | clone i =>
     simp only [hstep, hspec, getElem?_map_value]
     cases h : env[i]? with
@@ -322,6 +500,28 @@ theorem hstep_sound (W : Nat) (hW : 4 ≤ W) (env : List SRepr) (op : HOp)
     · obtain ⟨q, e, hc, hv⟩ := d1 hz
       simp only [hz, if_false, e, ofExcept]
       exact ⟨hc, hv⟩
+  | divEuclid i j =>
+    simp only [hstep, hspec, getElem?_map_value]
+    cases h : env[i]? <;> cases h' : env[j]? <;> try trivial
+    rename_i a b
+    have ⟨d0, d1⟩ := ibigDivEuclid_spec' W hW a b (henv a (mem_of_getElem? h)) (henv b (mem_of_getElem? h'))
+    simp only [Option.map_some]
+    by_cases hz : b.value W = 0
+    · simp only [hz, if_true, d0 hz, ofExcept]; rfl
+    · obtain ⟨q, e, hc, hv⟩ := d1 hz
+      simp only [hz, if_false, e, ofExcept]
+      exact ⟨hc, hv⟩
+  | remEuclid i j rv =>
+    simp only [hstep, hspec, getElem?_map_value]
+    cases h : env[i]? <;> cases h' : env[j]? <;> try trivial
+    rename_i a b
+    have ⟨d0, d1⟩ := ibigRemEuclid_spec' W hW a b rv (henv a (mem_of_getElem? h)) (henv b (mem_of_getElem? h'))
+    simp only [Option.map_some]
+    by_cases hz : b.value W = 0
+    · simp only [hz, if_true, d0 hz, Except.map, ofExcept]; rfl
+    · obtain ⟨r, e, hc, hv⟩ := d1 hz
+      simp only [hz, if_false, e, Except.map, ofExcept]
+      exact ⟨scanon_pos W _ hc, by simpa using hv⟩
   | and i j =>
     simp only [hstep, hspec, getElem?_map_value]
     cases h : env[i]? <;> cases h' : env[j]? <;> try trivial
@@ -343,16 +543,17 @@ theorem hstep_sound (W : Nat) (hW : 4 ≤ W) (env : List SRepr) (op : HOp)
 
 -- ================================================================== whole histories
 
-theorem hrun_sound (W : Nat) (hW : 4 ≤ W) (ops : List HOp) (env : List SRepr)
+theorem hrun_sound (W : Nat) (hW : 4 ≤ W) (ops : List HOp) (hok : ∀ op ∈ ops, op.Ok W) (env : List SRepr)
     (henv : ∀ r ∈ env, SCanon W r) :
     (∀ r ∈ (hrun W ops env).1, SCanon W r) ∧
-    hrunSpec ops (env.map (·.value W)) = ((hrun W ops env).1.map (·.value W), (hrun W ops env).2) := by
+    hrunSpec W ops (env.map (·.value W)) = ((hrun W ops env).1.map (·.value W), (hrun W ops env).2) := by
   induction ops generalizing env with
   | nil => exact ⟨henv, rfl⟩
   | cons op ops ih =>
-    have hs := hstep_sound W hW env op henv
+    have hs := hstep_sound W hW env op (hok op (List.mem_cons_self ..)) henv
+    have hok' : ∀ o ∈ ops, o.Ok W := fun o ho => hok o (List.mem_cons_of_mem _ ho)
     simp only [hrun, hrunSpec]
-    cases h1 : hstep W env op <;> cases h2 : hspec (env.map (·.value W)) op <;>
+    cases h1 : hstep W env op <;> cases h2 : hspec W (env.map (·.value W)) op <;>
       simp only [h1, h2, HAgree] at hs ⊢
     · rename_i r v
       have henv' : ∀ x ∈ env ++ [r], SCanon W x := by
@@ -360,7 +561,7 @@ theorem hrun_sound (W : Nat) (hW : 4 ≤ W) (ops : List HOp) (env : List SRepr)
         rcases List.mem_append.mp hx with h | h
         · exact henv x h
         · simp at h; rw [h]; exact hs.1
-      have := ih (env ++ [r]) henv'
+      have := ih hok' (env ++ [r]) henv'
       rw [List.map_append, List.map_cons, List.map_nil, hs.2] at this
       exact this
     · exact ⟨henv, trivial⟩
